@@ -1,0 +1,20 @@
+//go:build verif
+
+package proxy
+
+import "fmt"
+
+// VerifUDPWorkConnID identifies the current work connection object of a udp proxy ("" if p is
+// not a udp proxy or has none yet); it changes when the proxy has installed a new one.
+func VerifUDPWorkConnID(p Proxy) string {
+	pxy, ok := p.(*UDPProxy)
+	if !ok {
+		return ""
+	}
+	pxy.mu.Lock()
+	defer pxy.mu.Unlock()
+	if pxy.workConn == nil {
+		return ""
+	}
+	return fmt.Sprintf("%p", pxy.workConn)
+}
